@@ -129,6 +129,7 @@ func newStats() *Stats { return &Stats{Traces: map[uint64]bool{}, Outcomes: map[
 type Explorer struct {
 	Bounds   Bounds
 	Total    int // bound on the total number of deviations of all categories (0 = no extra bound)
+	Window   int // deviations only at choice points with index < Window (0 = everywhere)
 	MaxExec  int64
 	Deadline time.Time
 	progress func(st *Stats, prefix []int, r *vrt.Result)
@@ -210,6 +211,9 @@ func (e *Explorer) subtree(sc *Scenario, prefix []int, st *Stats) {
 		usedTotal += u
 	}
 	for i := len(prefix); i < len(r.Points); i++ {
+		if e.Window > 0 && i >= e.Window {
+			break
+		}
 		p := r.Points[i]
 		c := cat(p)
 		if used[c]+1 <= e.Bounds[c] && (e.Total == 0 || usedTotal+1 <= e.Total) {
@@ -236,6 +240,7 @@ type job struct {
 	Prefix   []int  `json:"prefix"`
 	Bounds   Bounds `json:"bounds"`
 	Total    int    `json:"total"`
+	Window   int    `json:"window"`
 	MaxExec  int64  `json:"max_exec"`
 	Budget   int64  `json:"budget_ms"`
 }
@@ -263,7 +268,7 @@ func WorkerMain() {
 			continue
 		}
 		sc := mk(j.Arg)
-		e := &Explorer{Bounds: j.Bounds, Total: j.Total, MaxExec: j.MaxExec}
+		e := &Explorer{Bounds: j.Bounds, Total: j.Total, Window: j.Window, MaxExec: j.MaxExec}
 		if j.Budget > 0 {
 			e.Deadline = time.Now().Add(time.Duration(j.Budget) * time.Millisecond)
 		}
@@ -295,6 +300,9 @@ func (e *Explorer) Explore(name, arg string, workers int) *Stats {
 	}
 	var jobs []job
 	for i, p := range r.Points {
+		if e.Window > 0 && i >= e.Window {
+			break
+		}
 		c := cat(p)
 		if e.Bounds[c] < 1 {
 			continue
@@ -302,7 +310,7 @@ func (e *Explorer) Explore(name, arg string, workers int) *Stats {
 		for alt := 1; alt < p.N; alt++ {
 			pre := make([]int, i+1)
 			pre[i] = alt
-			jobs = append(jobs, job{Scenario: name, Arg: arg, Prefix: pre, Bounds: e.Bounds, Total: e.Total, MaxExec: e.MaxExec})
+			jobs = append(jobs, job{Scenario: name, Arg: arg, Prefix: pre, Bounds: e.Bounds, Total: e.Total, Window: e.Window, MaxExec: e.MaxExec})
 		}
 	}
 	if len(jobs) == 0 {
